@@ -12,30 +12,74 @@ type fieldConstraints struct {
 }
 
 func (check fieldConstraints) CheckFieldPreConstraints(r *FieldRequest, hnd *ValueHandle) (bool, error) {
-	t := r.Meta.Type()
 	if hnd.Val == nil {
 		return true, nil
 	}
-
-	switch t.Format() {
-	case val.FmtString:
-		if err := check.checkString(hnd.Val.String(), t); err != nil {
-			return false, err
-		}
-	case val.FmtStringList:
-		strs := hnd.Val.Value().([]string)
-		for _, s := range strs {
-			if err := check.checkString(s, t); err != nil {
-				return false, err
-			}
-		}
-	}
-	if t.Format().IsNumeric() {
-		if err := check.checkRange(hnd.Val, t); err != nil {
-			return false, err
-		}
+	if err := check.checkType(r.Meta.Type(), hnd.Val); err != nil {
+		return false, err
 	}
 	return true, nil
+}
+
+// checkType checks a value (or every item of a list value) against the restrictions of the
+// type it has in the end: the target of a leafref, the member of a union
+func (check fieldConstraints) checkType(t *meta.Type, v val.Value) error {
+	switch t.Format().Single() {
+	case val.FmtLeafRef:
+		if target := t.Resolve(); target != nil && target != t {
+			return check.checkType(target, v)
+		}
+		return nil
+	case val.FmtUnion:
+		var err error
+		val.ForEach(v, func(_ int, item val.Value) {
+			if err == nil {
+				err = check.checkUnionItem(t, item)
+			}
+		})
+		return err
+	case val.FmtString:
+		var err error
+		val.ForEach(v, func(_ int, item val.Value) {
+			if err == nil {
+				err = check.checkString(item.String(), t)
+			}
+		})
+		return err
+	}
+	if t.Format().IsNumeric() {
+		return check.checkRange(v, t)
+	}
+	return nil
+}
+
+// an item of a union has to satisfy one of the members that hold values of its kind
+func (check fieldConstraints) checkUnionItem(t *meta.Type, item val.Value) error {
+	var firstErr error
+	for _, member := range t.Union() {
+		for member.Format().Single() == val.FmtLeafRef {
+			target := member.Resolve()
+			if target == nil || target == member {
+				break
+			}
+			member = target
+		}
+		var err error
+		if member.Format().Single() == val.FmtUnion {
+			err = check.checkUnionItem(member, item)
+		} else if member.Format().Single() == item.Format().Single() {
+			err = check.checkType(member, item)
+		} else {
+			continue
+		}
+		if err == nil {
+			return nil
+		}
+		if firstErr == nil {
+			firstErr = err
+		}
+	}
+	return firstErr
 }
 
 func (check fieldConstraints) checkString(s string, t *meta.Type) error {
